@@ -4,7 +4,7 @@ PLAN = dict(
     rule=("Oracle for every input b: cbor.Deterministic(b) == nil  <=>  the independent judge refcbor.IsCoreDeterministic(b) (complete items of "
           "major types 0,2,3,4,5, shortest heads, map keys strictly ascending bytewise). A panic is a rejection (the repository's unit tests "
           "require panics on truncated input); not returning within the watchdog time is a violation. short-exhaustive: every byte string of "
-          "length <= L (4 quick, 5 thorough) over a 37-byte grammar alphabet; boundary / bigarg-*: one head (major, argument at a width "
+          "length <= L (4 quick, 5 thorough), and of length L+1 when starting with a2 (two-pair map), over a 37-byte grammar alphabet; boundary / bigarg-*: one head (major, argument at a width "
           "boundary, every width) with declared-1/declared/declared+1 content in 5 contexts; generated: a valid nested sequence from the "
           "reference encoder with none or exactly one corruption (head lengthened, adjacent map entries swapped, key duplicated, length/count "
           "replaced incl. 2^62..2^64-1, truncated, partial item appended); encoder-output: bytes emitted by the repository's Encoder for "
@@ -15,16 +15,16 @@ PLAN = dict(
     runs=[
         dict(name="short", run="^TestExhaustiveShort$", shards=(1, 16), timeout=(300, 900)),
         dict(name="enum", run="^(TestExhaustiveBoundary|TestExhaustiveBigArgs|TestCorpus)$"),
-        dict(name="gen", run="^TestPropGenerated$", checks=(20000, 100000), shards=(1, 8)),
-        dict(name="enc", run="^TestPropEncoderOutput$", checks=(5000, 50000), shards=(1, 4)),
+        dict(name="gen", run="^TestPropGenerated$", checks=(100000, 250000), shards=(1, 8)),
+        dict(name="enc", run="^TestPropEncoderOutput$", checks=(30000, 100000), shards=(1, 4)),
     ],
     technique="exhaustive enumeration of short inputs over a grammar alphabet and of head/argument/content boundaries, plus rapid-generated valid items with one structure-aware corruption, differential against an independent RFC 8949 section 4.2.1 judge; per-call and per-batch watchdogs for termination",
-    level_text=("All byte strings up to length 4 (quick) / 5 (thorough) over a 37-byte alphabet covering every head class are enumerated "
+    level_text=("All byte strings up to length 4 (quick) / 5 (thorough), one more for two-pair maps, over a 37-byte alphabet covering every head class are enumerated "
                 "completely, as are head/width/content boundary combinations; nested inputs are sampled (valid items with exactly one "
                 "corruption, encoder output). Every verdict is compared with an independent RFC 8949 core-deterministic judge and every call "
                 "runs under a watchdog. Exploration level: longer and deeper inputs are sampled, not enumerated."),
     level_note=NOTE_BASE,
-    require=[("short-exhaustive", "accepted"), ("short-exhaustive", "rejected-nonshortest"),
+    require=[("short-exhaustive", "accepted"), ("short-exhaustive", "rejected-order"), ("short-exhaustive", "rejected-nonshortest"),
              ("short-exhaustive", "rejected-malformed"), ("short-exhaustive", "panic-as-reject"),
              ("generated", "accepted"), ("generated", "rejected-order"), ("generated", "rejected-nonshortest"), ("generated", "rejected-malformed"),
              ("generated", "corr-setarg-still-valid"), ("encoder-output", "accepted"), ("boundary", "accepted")],
